@@ -86,9 +86,11 @@ reg("C12",
     "typed answers; multiples of 1000 are not generated.",
     "property-based testing + exhaustive code sweep, reference-decoded output", "DESIGN.md#c12")
 reg("C13",
-    "Property-based test over generated route tables (1-3 applications x command codes, shared codes), requests (registered and "
-    "unregistered pairs, built and decoded) and handler outcomes (answer, None, wrong types, standard exceptions) on a real Bromelia "
-    "object with in-process Workers; handler invocations are logged and every worker's send queue is read with the reference decoder.",
+    "Property-based test over generated route tables (1-3 applications x command codes, shared codes), request histories of 1-4 requests "
+    "per application object (registered and unregistered pairs, built and decoded) and handler outcomes (answer, None, wrong types, "
+    "exceptions with 0/1/2 arguments) on a real Bromelia object with in-process Workers; handler invocations are logged and every "
+    "worker's send queue is read with the reference decoder. Plus concurrent dispatch under the controlled scheduler: 2-3 requests "
+    "through the real create_message_thread with gated handlers.",
     "Trusted: reference decoder; the fake manager (thread primitives instead of multiprocessing proxies; the lock never blocks so a "
     "second send is observable instead of deadlocking).",
     "property-based testing of dispatch against a logging harness (Hypothesis)", "DESIGN.md#c13")
@@ -120,7 +122,8 @@ reg("C03",
     "structure-aware mutation testing + coverage-guided fuzzing (atheris) with semantic oracles", "DESIGN.md#c03")
 reg("C04",
     WORLD + "Generated message sequences x segmentations (one segment, aligned, inside header, inside AVP header, bytewise, random, "
-    "coalesced) x 1-2 consumers x schedule prefixes (random walk, PCT-like, optional source-line preemption) + fair completion; "
+    "coalesced, header-prefix) x 1-2 consumers x schedule prefixes (random walk, PCT-like, optional source-line preemption) x targeted "
+    "delays (a library thread paused right after leaving a critical section) + fair completion; "
     "delivered dump() bytes compared with the sent sequence (multiset, once, order), DWA order reference-decoded.",
     "Schedules are sampled, not enumerated; preemption granularity = shim operation / source line; liveness judged within 12 virtual "
     "seconds; TCP only.",
@@ -148,9 +151,10 @@ reg("C06",
     "real node; after every event the reported state, the reference-decoded base-protocol output, deliveries, the state-machine "
     "thread and (when Closed) the transport are compared with a nondeterministic reference transition model written from RFC 6733 "
     "5.6 and the statement.",
-    "Sequences are sampled (<= 14 events) under the fair schedule, not enumerated to closure; rows on which the statement is silent "
-    "are nondeterministic; election events are excluded by construction.",
-    "model-based testing against a reference transition model (Hypothesis-generated event histories)", "DESIGN.md#c06")
+    "Long sequences are sampled (guided random, <= 16 events) under the fair schedule; every sequence of 2 (quick) / 3 (thorough) events "
+    "over a 21-event alphabet after the canonical opening is enumerated for both roles; rows on which the statement is silent are "
+    "nondeterministic; election events are excluded by construction.",
+    "model-based testing against a reference transition model (generated event histories + bounded exhaustive enumeration)", "DESIGN.md#c06")
 reg("C07",
     WORLD + "History testing with the C06 machinery biased to base requests (boundary identifier values, two requests in one segment, "
     "outbound backlog across the batch limit, reconnects on the same object); every CEA/DWA/DPA written is reference-decoded and "
